@@ -961,6 +961,7 @@ class AstEval:
         self.sym_table_stack: list[SymTable] = []
         self.sym_table = self.global_sym_table
         self.local_sym_table: SymTable = {}
+        self.local_sym_table_base: SymTable = {}
         self.user_locals: SymTable = {}
         self.curr_func: EvalFunc | None = None
         self.filename = name
@@ -2284,6 +2285,8 @@ class AstEval:
     def set_local_sym_table(self, sym_table):
         """Set the local symbol table."""
         self.local_sym_table = sym_table
+        # what eval() starts from when it is given new variables (print, log.*, task.unique, ...)
+        self.local_sym_table_base = sym_table.copy()
 
     def set_global_ctx(self, global_ctx):
         """Set the global context."""
@@ -2365,7 +2368,8 @@ class AstEval:
         """Execute parsed code, with the optional state variables added to the scope."""
         if new_state_vars:
             if not merge_local:
-                self.local_sym_table = {}
+                # only the installed functions stay; variables of an earlier evaluation do not
+                self.local_sym_table = self.local_sym_table_base.copy()
             self.local_sym_table.update(new_state_vars)
         if self.ast:
             val = await self.aeval(self.ast)
